@@ -1,0 +1,9 @@
+//go:build verif
+
+package protocol
+
+import "sync/atomic"
+
+// VerifSetIDGen presets the correlation id generator of the connection (the next round trip uses v+1), so that a
+// harness can run RoundTrip across the int32 wrap (build tag `verif` only).
+func (c *Conn) VerifSetIDGen(v int32) { atomic.StoreInt32(&c.idgen, v) }
